@@ -1,6 +1,7 @@
 package main
 
 import (
+	"context"
 	"flag"
 	"fmt"
 	"os"
@@ -27,6 +28,8 @@ func main() {
 		cmdReplay(os.Args[2:])
 	case "selftest":
 		cmdSelftest(os.Args[2:])
+	case "probe":
+		cmdProbe(os.Args[2:])
 	default:
 		fmt.Fprintln(os.Stderr, "unknown command", os.Args[1])
 		os.Exit(2)
@@ -198,3 +201,52 @@ func shortFile(f string) string {
 
 func cmdReplay(args []string)   { fmt.Println("not implemented"); os.Exit(2) }
 func cmdSelftest(args []string) { fmt.Println("not implemented"); os.Exit(2) }
+
+// cmdProbe: consistency probe. The prelude, the spec definitions, the uninterpreted functions' axioms and the lemmas are given
+// to the MBQI-enabled solvers without any goal; "unsat" means the axioms contradict each other (every proof would be vacuous).
+// "unknown"/"timeout" is the expected answer (no contradiction found within the budget).
+func cmdProbe(args []string) {
+	fs := flag.NewFlagSet("probe", flag.ExitOnError)
+	repo := fs.String("repo", "/repo", "repository")
+	verif := fs.String("verif", "/verif", "verif dir")
+	timeout := fs.Int("timeout", 120, "seconds per solver")
+	fs.Parse(args)
+	w, err := LoadWorld(*repo, *verif)
+	if err != nil {
+		fmt.Fprintln(os.Stderr, "ERROR", err)
+		os.Exit(2)
+	}
+	fc, header, err := w.LemmaObligations()
+	if err != nil {
+		fmt.Fprintln(os.Stderr, "ERROR", err)
+		os.Exit(2)
+	}
+	dir, _ := os.MkdirTemp("", "govc-probe")
+	defer os.RemoveAll(dir)
+	body := header + strings.Join(fc.log, "\n") + "\n(check-sat)\n"
+	bad := false
+	var wg sync.WaitGroup
+	var mu sync.Mutex
+	for _, sp := range solvers {
+		sp := sp
+		wg.Add(1)
+		go func() {
+			defer wg.Done()
+			f := dir + "/probe." + sp.name + ".smt2"
+			os.WriteFile(f, []byte(sp.opts+body), 0o644)
+			st, _, dt := runSolver(context.Background(), sp, f, *timeout)
+			mu.Lock()
+			fmt.Printf("probe %-12s %-8s %.1fs\n", sp.name, st, dt)
+			if st == "unsat" {
+				bad = true
+			}
+			mu.Unlock()
+		}()
+	}
+	wg.Wait()
+	if bad {
+		fmt.Println("INCONSISTENT: prelude + specs + lemmas are unsatisfiable")
+		os.Exit(2)
+	}
+	fmt.Println("probe: no contradiction found")
+}
